@@ -142,8 +142,13 @@ def behaviour(ratio, step, order, num_terms, length, ncols, kappa, w1, singular)
                     'length - terms used' % (out.shape, err.shape, hh.shape, m, ncols)), calls
         if not np.array_equal(seq, seq_before):
             return ('input-modified', 'input sequence modified in place'), calls
-        if not (np.all(err >= 0) or np.any(np.isnan(err))):
-            return ('negative-estimate', 'negative error estimate %r' % (err.min(),)), calls
+        # "non-negative" is a statement about real numbers: an estimate with a non-zero imaginary part is neither
+        # (numpy orders complex numbers lexicographically, so `err >= 0` alone would accept 10.9-25.5j)
+        if np.iscomplexobj(err) and np.any(np.imag(err) != 0):
+            bad = err.ravel()[np.flatnonzero(np.imag(err).ravel() != 0)[0]]
+            return ('negative-estimate', 'error estimate %r is not a non-negative real number' % (bad,)), calls
+        if not (np.all(np.real(err) >= 0) or np.any(np.isnan(err))):
+            return ('negative-estimate', 'negative error estimate %r' % (np.real(err).min(),)), calls
         if np.any(np.isnan(err)) and np.all(np.isfinite(seq)):
             return ('nan-estimate', 'NaN error estimate for finite input'), calls
         if not np.array_equal(hh, steps[:m]):
@@ -253,7 +258,7 @@ def run(ctx):
     rule = ('full product of %d ratios (8 real, 12 complex) x spacing 1..4 x order 1..8 x num_terms 0..5 x '
             'lengths x columns; exact Gaussian-rational annihilation identities on the float weights; model '
             'sequences L + sum a_j h^(order+spacing j) (4 coefficient patterns, 2 start steps) through the real '
-            'Richardson.__call__: every slot == L within 1e3*eps*kappa*|w|_1*scale, shapes, estimates >= 0, '
+            'Richardson.__call__: every slot == L within 1e3*eps*kappa*|w|_1*scale, shapes, estimates real and >= 0, '
             'column independence bit-for-bit.  Non-trivial = at least one term used and 100*eps*kappa < 0.5.'
             % len(ratios))
     return fw.finish(ctx, acc, LEVEL, rule, exhaustive=True, required_cells=req,
